@@ -99,9 +99,7 @@ class Constant(ModelNode):
                 return None
 
     def dependencies(self):
-        for symbol in re.findall(r"[0-9][0-9a-zA-Z]*|[A-Za-z_][A-Za-z0-9_]*", str(self.value)):
-            if not symbol[0].isdigit():
-                yield symbol
+        return _expression_symbols(self.value)
 
 
 class EnumMember(Constant):
@@ -187,6 +185,12 @@ class StructMember(Typedef):
         """amount of bytes to add before next field. If field dynamic: negative alignment of next field"""
         self.padding = None
 
+    def dependencies(self):
+        yield self.type_name
+        if self.size:
+            for symbol in _expression_symbols(self.size):
+                yield symbol
+
     @property
     def is_array(self):
         return self.bound or self.size or self.greedy
@@ -229,6 +233,11 @@ class UnionMember(Typedef):
     def __init__(self, name, type_name, discriminator, definition=None, docstring=None):
         super(UnionMember, self).__init__(name, type_name, definition, docstring)
         self.discriminator = discriminator
+
+    def dependencies(self):
+        yield self.type_name
+        for symbol in _expression_symbols(self.discriminator):
+            yield symbol
 
 
 """ Composite kinds """
@@ -361,6 +370,13 @@ def _check_string(docstring, what_):
         msg = "Got {} of '{}' type, expected string."
         raise ModelError(msg.format(what_, type(docstring).__name__))
     return six.decode_string(docstring)
+
+
+def _expression_symbols(expression):
+    """ Identifiers used in a constant expression. """
+    for symbol in re.findall(r"[0-9][0-9a-zA-Z]*|[A-Za-z_][A-Za-z0-9_]*", str(expression)):
+        if not symbol[0].isdigit():
+            yield symbol
 
 
 def split_after(nodes, predicate):
